@@ -30,7 +30,13 @@ META = {
                   'bare values, the Group loop - is the configuration the written text stands for) and its corollary '
                   'written_config_rejected (an error written in the file, e.g. p=None, is rejected), merge_first_wins / '
                   'file_last_wins (load_config keeps, for each name, the definition of the first file that has it, records the '
-                  'origin for merged-in modules and lists names occurring in several files as ambiguous).  The hypotheses of '
+                  'origin for merged-in modules and lists names occurring in several files as ambiguous), and for module '
+                  'properties naming another module (Attached): attachments_settled (every module of a node is reported as not '
+                  'created, or reported as not initialised, or registered with every attachment its configuration gives applied), '
+                  'attached_applied (on a node which starts, each attachment names a module of the node of the kind asked for '
+                  'and the attribute of the instance is that module - mandatory or optional property, used during '
+                  'initialisation or not), bad_attachment_reported (a name no module has, or a module of the wrong kind: the '
+                  'module is among the failing modules reported and the node does not start).  The hypotheses of '
                   'the theorems (WellFormed class description, well-written Mod arguments) are checked by Lean on every case '
                   '(wellFormedB_sound, writtenOkB_sound).  The model is tied to frappy/modulebase.py, params.py, properties.py, '
                   'secnode.py, config.py by a correspondence run over generated (class, cfg) pairs through the real SecNode / '
@@ -56,12 +62,17 @@ META = {
         'Parameter.finish for `constant`, applyMainUnit ($ units), Command accessibles in the cfg, `datatype` given in the cfg',
         'mandatory properties of Parameter objects (description/datatype): always present in generated classes',
         'Server._processCfg sys.exit(1): observed as "SecNode.errors non-empty"; the real Server._processCfg runs in a '
-        'subprocess for one good and one bad configuration only',
+        'subprocess for four fixed configurations only',
         'Server.restart: observed as a second SecNode built from the same module_cfg objects (what _processCfg does)',
+        'attached modules: the model of SecNode.get_module / Attached.__get__ covers resolution order, kind check, failed and '
+        'cyclic targets and the second run of a failing constructor; Pinata modules (scanModules), an Attached accessed inside a '
+        'constructor, and what earlyInit/initModule do besides asking for attached modules are not modelled',
     ],
     'assumptions': ['configuration dicts have unique keys (Python dict)',
                     'base parameters of Limit parameters precede them and have a datatype',
-                    'a start only reads the loaded configuration (checked by observation on every case)'],
+                    'a start only reads the loaded configuration (checked by observation on every case)',
+                    'module names of a node are distinct (a dict); the empty string as value of an Attached property means '
+                    '"not attached" (docstring of Attached), also for a mandatory one'],
 }
 
 GENMOD = 'frappy_verifc10gen'
@@ -652,6 +663,9 @@ def inject(rng, spec, cfg, kind):
                  ('visibility', 7), ('pollinterval', 'fast'), ('pollinterval', 1000), ('group', 5), ('export', 'maybe')]
         names = {m['name'] for m in spec['modprops']} | {'visibility', 'pollinterval', 'group', 'export'}
         cands += [('group', None), ('mp', None), ('visibility', None)]
+        for a in spec.get('attached', []):              # the name of a module is a string
+            cands += [(a['name'], 5), (a['name'], ['m0']), (a['name'], None)]
+            names.add(a['name'])
         k, v = rng.choice([c for c in cands if c[0] in names])
         # a raw dict can not carry a bare None (`cfgdict.pop(key, None)`): config files wrap every value in Param()
         cfg[k] = ('bare', v) if rng.random() < 0.5 and v is not None else ('dict', [('value', v)])
@@ -1724,9 +1738,14 @@ def run(ctx):
                 'through 1-3 merged config files written with the DSL (Mod / Param(v, k=..) / bare value / Group / one Param '
                 'object bound to a variable and used by several modules), any subset configured, values inside/at/outside '
                 'limits, overrides of min/max/unit/visibility/export/readonly/group/description in any key order, 0-4 '
-                'injected errors of 12 kinds (commands configured, too); a node without configuration error is started a second time from the same '
-                'loaded configuration; non-trivial = a module that is registered with at least one configured parameter '
-                'entry, or rejected with an injected error')
+                'injected errors of 12 kinds (commands configured, too); classes inherit from 0-2 mixin kinds and have 0-2 '
+                'Attached(basecls) properties (mandatory or optional, used by their own initModule or not), configured with the '
+                'name of a module of the right kind / of the wrong kind / of no module (typo) / the module itself / the empty '
+                'string / nothing, also towards modules whose own configuration is erroneous; 30 % of the nodes have no '
+                'injected error; a node without configuration error is started a second time from the same '
+                'loaded configuration; the real Server._processCfg runs in a subprocess on four configurations (good, two '
+                'failing modules, optional attached modules good / typo + wrong kind); non-trivial = a module that is '
+                'registered with at least one configured parameter entry, or rejected with an injected error')
     rng = ctx.rng
     n = ctx.budget(1000, 10000)
     shrunk = 0
